@@ -121,6 +121,11 @@ namespace vu {
             else if (op == "get_transfer_from_linkage") r = w.reg(lx.get_transfer_from_linkage(w.linkage(a.at(0))));
             else if (op == "get_transfer_from_convention") r = w.reg(lx.get_transfer_from_convention(w.callconv(a.at(0))));
             else if (op == "get_transfer") r = w.reg(lx.get_transfer(w.linkage(a.at(0)), w.callconv(a.at(1))));
+            else if (op == "get_identifier_s") r = w.reg(lx.get_identifier(lx.get_string(u)));
+            else if (op == "get_operator_s") r = w.reg(lx.get_operator(lx.get_string(u)));
+            else if (op == "get_linkage_s") r = w.reg(lx.get_linkage(lx.get_string(u)));
+            else if (op == "get_literal_s") r = w.reg(lx.get_literal(T(0), lx.get_string(u)));
+            else if (op == "make_literal_s") r = w.reg(*lx.make_literal(T(0), lx.get_string(u)));
             else if (op == "get_identifier") r = w.reg(lx.get_identifier(u));
             else if (op == "get_operator") r = w.reg(lx.get_operator(u));
             else if (op == "get_suffix") r = w.reg(lx.get_suffix(I(0)));
@@ -227,7 +232,8 @@ namespace vu {
       "get_decltype", "get_auto", "get_transfer_from_linkage", "get_transfer_from_convention", "get_transfer",
       "get_identifier", "get_operator", "get_suffix", "get_conversion", "get_ctor_name", "get_dtor_name",
       "get_guide_name", "get_template_id", "get_logogram", "get_symbol", "get_label", "get_this", "get_literal",
-      "make_literal", "get_linkage", "get_calling_convention", "eq_linkage", "eq_callconv", "eq_transfer",
+      "make_literal", "get_linkage", "get_calling_convention", "get_identifier_s", "get_operator_s", "get_linkage_s",
+      "get_literal_s", "make_literal_s", "eq_linkage", "eq_callconv", "eq_transfer",
       "eq_logogram", "mk_class", "mk_phantom", "mk_expr_list", "mk_template" };
 
    const std::vector<std::string> words { "", "a", "b", "foo", "bar", "int", "C", "C++", "Java", "cdecl", "this",
@@ -285,7 +291,7 @@ namespace vu {
       else if (op == "get_transfer_from_convention") a.push(rng.pick(in.callconvs));
       else if (op == "get_transfer") { a.push(rng.pick(in.linkages)); a.push(rng.pick(in.callconvs)); }
       else if (op == "get_identifier" or op == "get_operator" or op == "get_logogram" or op == "get_linkage"
-               or op == "get_calling_convention")
+               or op == "get_calling_convention" or op == "get_identifier_s" or op == "get_operator_s" or op == "get_linkage_s")
          wd = words[rng.below(static_cast<int>(words.size()))];
       else if (op == "get_guide_name") { if (not need(in.templates)) return false; a.push(rng.pick(in.templates)); }
       else if (op == "get_template_id") {
@@ -293,7 +299,7 @@ namespace vu {
          a.push(anyexpr()); a.push(rng.pick(in.exprlists));
       }
       else if (op == "get_symbol") { a.push(rng.pick(in.idents)); a.push(rng.pick(in.types)); }
-      else if (op == "get_literal" or op == "make_literal") {
+      else if (op == "get_literal" or op == "make_literal" or op == "get_literal_s" or op == "make_literal_s") {
          a.push(rng.pick(in.types)); wd = words[rng.below(static_cast<int>(words.size()))];
       }
       else if (op == "eq_linkage") { a.push(rng.pick(in.linkages)); a.push(rng.pick(in.linkages)); }
